@@ -20,8 +20,9 @@ import (
 	"golang.org/x/tools/go/ssa/ssautil"
 )
 
-// ModPath is the module path of the analysed repository.
-const ModPath = "github.com/Tnze/go-mc"
+// ModPath is the module path of the analysed repository (the control fixtures
+// are loaded with their own path, see LoadOpts.ModPath).
+var ModPath = "github.com/Tnze/go-mc"
 
 // Prog is the resolved program: type-checked syntax, SSA and (lazily) the VTA
 // call graph of the working tree found at Dir.
@@ -44,9 +45,10 @@ type Prog struct {
 
 // LoadOpts selects the build configuration.
 type LoadOpts struct {
-	Dir    string
-	GOOS   string
-	GOARCH string
+	Dir     string
+	GOOS    string
+	GOARCH  string
+	MinPkgs int // refuse to analyse fewer module packages (0 = 30)
 }
 
 // skipPkg: packages that are not library code a user relies on (mains under
@@ -112,8 +114,12 @@ func Load(o LoadOpts) (*Prog, error) {
 		p.Pkgs = append(p.Pkgs, pk)
 	}
 	sort.Slice(p.Pkgs, func(i, j int) bool { return p.Pkgs[i].PkgPath < p.Pkgs[j].PkgPath })
-	if len(p.Pkgs) < 30 {
-		return nil, fmt.Errorf("load: only %d module packages found under %s (expected >= 30): refusing to pass vacuously", len(p.Pkgs), o.Dir)
+	minPkgs := o.MinPkgs
+	if minPkgs == 0 {
+		minPkgs = 30
+	}
+	if len(p.Pkgs) < minPkgs {
+		return nil, fmt.Errorf("load: only %d module packages found under %s (expected >= %d): refusing to pass vacuously", len(p.Pkgs), o.Dir, minPkgs)
 	}
 	return p, nil
 }
